@@ -568,7 +568,7 @@ func (x *explorer) judge(p path, hist []histPart, f *facts, cp *crashPoint, rec 
 			if why, ok := f.constraint[pr]; ok && sc.rewriteVictim(d.msg) {
 				// group G: what the queue owes when it could not write the narrower
 				// list into its own spool is not stated (NOTES.md); not judged
-				x.r.Count("io_error_rewrite_resend_not_judged", 1)
+				x.r.Count(sc.Fault.ctr()+"_resend_not_judged", 1)
 			} else if ok {
 				c.Violation("resent-after-later-attempt-began/"+why+"/"+variant, fmt.Sprintf("%s had been %s and the queue had already begun a later attempt for %s before the crash at %s, yet recovery sends to it again", r, why, d.msg, cp), wit(nil))
 			}
@@ -645,8 +645,8 @@ func (x *explorer) judge(p path, hist []histPart, f *facts, cp *crashPoint, rec 
 				x.r.Count("acked_recipient_reported_after", 1)
 			}
 			if sc.rewriteVictim(id) && !f.delivered[pr] && !f.reported[pr] {
-				x.r.Count("io_error_rewrite_pending_recipients_judged", 1)
-				x.r.Count("io_error_rewrite_pending_recipients_judged_"+sc.Fault.counterName(), 1)
+				x.r.Count(sc.Fault.ctr()+"_pending_recipients_judged", 1)
+				x.r.Count(sc.Fault.ctr()+"_pending_recipients_judged_"+sc.Fault.counterName(), 1)
 			}
 			if f.delivered[pr] || f.reported[pr] || da || ra {
 				continue
@@ -705,6 +705,10 @@ func (x *explorer) judge(p path, hist []histPart, f *facts, cp *crashPoint, rec 
 			if f.reportProblems+after.reportProblems > 0 {
 				c.Inconclusive(fmt.Sprintf("%s: a failure report could not be attributed, %s of %s not judged", sc.Name, r, id))
 				x.inconclusive++
+				continue
+			}
+			if sc.rewriteVictim(id) && sc.Fault.ReadRetry {
+				c.Violation("acked-recipient-lost/io-error-reading-at-retry/"+sc.Fault.file(), fmt.Sprintf("message %s was accepted (Commit had returned); after its first attempt %s was still pending and the record had been rewritten; when the retry was dispatched, opening %s.%s for reading returned %v. The queue was stopped at %s and restarted on that spool: %s has not been delivered or reported before the stop, was not delivered or reported by the restarted queue, and cannot be attempted again (%s)", id, r, id, sc.Fault.file(), sc.Fault.Err, cp, r, cause), wit(map[string]any{"recipient": r, "message": id, "cause": cause, "injected_fault": sc.Fault.describe()}))
 				continue
 			}
 			if sc.rewriteVictim(id) {
@@ -806,6 +810,12 @@ func TestVerif(t *testing.T) {
 	for k := 0; k < r.N(nRewriteCases, 5*nRewriteCases); k++ {
 		i := rewriteBase + k
 		r.Run(i, fmt.Sprintf("io-error-rewrite-%d", i), func(c *rep.Case) { runRewriteFaultCase(t, r, c, i) })
+	}
+	// group H (retry_read_fault_test.go): I/O errors when the RETRY dispatch
+	// opens the victim's spool files for reading
+	for k := 0; k < r.N(nRetryReadCases, 3*nRetryReadCases); k++ {
+		i := retryReadBase + k
+		r.Run(i, fmt.Sprintf("io-error-retry-read-%d", i), func(c *rep.Case) { runRetryReadFaultCase(t, r, c, i) })
 	}
 	for _, i := range indices {
 		i := i
